@@ -59,19 +59,19 @@ globalThis.setTitle = function(t) { __log.push(["setTitle", t]); };
 `
 
 type jcell struct {
-	s           string
-	fg, bg      int
-	attrs, us   int
-	uc          int
-	stamp       int
+	s         string
+	fg, bg    int
+	attrs, us int
+	uc        int
+	stamp     int
 }
 
 // page is the Go-side mirror of what the JS stubs were told.
 type page struct {
-	cells       map[[2]int]*jcell
-	stamp       int
-	cx, cy      int
-	clears      int
+	cells  map[[2]int]*jcell
+	stamp  int
+	cx, cy int
+	clears int
 }
 
 func (p *page) drain() {
